@@ -1,0 +1,31 @@
+//! C16: wrappers around the crate-private count / fill helpers of `algebra/csc/utils.rs`
+//! (the missing-diagonal pipeline of the KKT assembly, run on a fresh matrix) and the
+//! diagonal-entry counter.  Read-only with respect to their arguments.
+#![allow(non_snake_case)]
+use crate::algebra::*;
+
+/// `M` plus a structural zero on every diagonal position that `M` (square, upper
+/// triangular) does not store, built with the same count / fill sequence the KKT assembly
+/// uses (`colcount_block`, `colcount_missing_diag`, `colcount_to_colptr`, `fill_block`,
+/// `fill_missing_diag`, `backshift_colptrs`; block offset 0).  Also returns the map from the
+/// entries of `M` to their positions in the result.
+pub fn add_missing_diag(M: &CscMatrix<f64>) -> (CscMatrix<f64>, Vec<usize>) {
+    let n = M.n;
+    let ndiag = M.count_diagonal_entries(MatrixTriangle::Triu);
+    let nnz = M.nnz() + n - ndiag;
+    let mut K = CscMatrix::<f64>::spalloc((M.m, n), nnz);
+    K.colptr.fill(0);
+    K.colcount_block(M, 0, MatrixShape::N);
+    K.colcount_missing_diag(M, 0);
+    K.colcount_to_colptr();
+    let mut map = vec![0; M.nnz()];
+    K.fill_block(M, &mut map, 0, 0, MatrixShape::N);
+    K.fill_missing_diag(M, 0);
+    K.backshift_colptrs();
+    (K, map)
+}
+
+/// `count_diagonal_entries` for the upper (`true`) or lower (`false`) triangle convention
+pub fn count_diagonal_entries(M: &CscMatrix<f64>, triu: bool) -> usize {
+    M.count_diagonal_entries(if triu { MatrixTriangle::Triu } else { MatrixTriangle::Tril })
+}
